@@ -578,9 +578,17 @@ def run_manager(case):
         def match(m):
             return isinstance(m, e.ExtendedMessage) and \
                 m.sub_message.message_id == ver.MESSAGE_ID
-        mgr = hb.HeartbeatManager(loop, w.sock, hb.HeartbeatConfig(
-            message=e.ExtendedMessage(ver.ConsoleVersionRequest()), response_match=match,
-            interval=I, timeout=W))
+        import zlib
+        if zlib.crc32(repr(case).encode()) % 2:
+            cfg = hb.HeartbeatConfig(
+                message=e.ExtendedMessage(ver.ConsoleVersionRequest()), response_match=match,
+                interval=I, timeout=W)
+        else:
+            # (built positionally, in the documented order of its four fields)
+            cfg = hb.HeartbeatConfig(e.ExtendedMessage(ver.ConsoleVersionRequest()), match,
+                                     I, W)
+            obs["config_built_positionally"] = 1
+        mgr = hb.HeartbeatManager(loop, w.sock, cfg)
         out["T0"] = loop.time()
         out["m0"] = log.mark()
         await mgr.start()
